@@ -32,7 +32,7 @@ var opByID = func() map[string]int {
 	return m
 }()
 
-var varNames = []string{"a", "b", "m", "s", "x", "t", "ts", "tm", "st", "u", "tf", "st2", "rows"}
+var varNames = []string{"a", "b", "m", "s", "x", "t", "ts", "tm", "st", "u", "tf", "st2", "rows", "ok", "si", "up", "uk", "pp", "dp", "sh"}
 
 // ---------- one world: an anko environment and the model, side by side ----------
 
@@ -87,6 +87,13 @@ func runImpl(e *env.Env, src string, plain bool) (out implOut) {
 
 func newWorld(cfg int, plain bool) (*world, string) {
 	w := &world{e: env.NewEnv(), m: &machine{g: configs[cfg].model()}, plain: plain}
+	for k, v := range hostValues() {
+		if err := w.e.Define(k, v); err != nil {
+			return w, "Define failed: " + err.Error()
+		}
+	}
+	w.e.DefineType("User", User{})
+	w.e.DefineType("HostI", HostI{})
 	src := strings.Join(append(append([]string{}, baseSetup...), configs[cfg].setup...), "\n")
 	if o := runImpl(w.e, src, plain); o.err || o.panic != "" {
 		return w, fmt.Sprintf("setup script failed: %s%s", o.msg, o.panic)
